@@ -32,9 +32,11 @@ ASSUME_BLOCK = [
     "hash_tree_root(post-state) for the state-root rule (o_post_root) is the library's root of the post-state the real code reaches WITHOUT result "
     "validation; sound because the post-state itself is compared field by field with S's on the same line",
     "the execution engine's verdict is an input (mock engine on the Go side, o_engine on the Lean side)",
-    "mode=post: the op line's pre-state is the chain state after slot processing up to the block's slot; the Go side answers with "
-    "common.PostSlotTransition(validateResult=true) and an EpochsContext computed from that state; the composition with ProcessSlots "
-    "(common.StateTransition = ProcessSlots; PostSlotTransition) is covered by property C02 (slots/epochs/upgrades) and C08 (the context after rotation)",
+    "mode=post lines: the pre-state is the chain state after slot processing up to the block's slot; the Go side answers with "
+    "common.PostSlotTransition(validateResult=true) and an EpochsContext computed from that state. mode=full lines (c01 only): the pre-state is the "
+    "state before slot processing (also across runs of skipped slots, epoch boundaries and fork upgrades); the Go side answers with "
+    "common.StateTransition(validateResult=true); S runs process_slots of lean/Zrnt/Beacon/Spec/Transition.lean (property C02's oracle) with the "
+    "state roots of the intermediate slots (sroots) and the sync-committee aggregate pubkeys (aggs) supplied by stepping the real code, as in C02",
     "uint64 overflow inside the specification (pyspec raises => reject) was not reachable by any generated chain or mutant",
     "chains use minimal-derived presets (custom 'fast' and random small parameter sets, published minimal) with 32-64 validators (quick); mainnet-sized "
     "registries are not run (the theorems have no size bound, the correspondence has)",
